@@ -31,12 +31,39 @@ from ndn.app_support.svs.tlv import StateVec, StateVecWrapper, StateVecEntry
 GROUP = '/grp'
 U = 1.0 / 64            # one tick, exactly representable
 NOSEQ = -1              # spec value of "entry without sequence number"
-NOID = 'none'           # spec value of "entry without node id"
+NOID = 'none'           # spec value of "entry without node id" (no Name element)
+ROOTID = 'root'         # spec value of "entry whose node id is the name of zero components": sync.py tests
+                        # `if not rsv.node_id`, so it cannot tell that name from a missing one
 SV_TYPE = 0xc9
 
 
+# The nodes of the specification are abstract; the real node names are chosen to be unusual but
+# decodable (all accepted end-to-end by the library): C18 must hold for them like for any node.
+# Names are built and recognised as component byte strings - never through their URI form.
+NODE_NAMES = {
+    'self': [b'\x08\x04self'],
+    'n1': [b'\x08\x04node', b'\xfe\x00\x01\x00\x00\x01Y'],                    # component type 65536
+    'n2': [b'\x08\x04node', b'\x00\x01X'],                                      # component type 0
+    'n3': [b'\xfd\xff\xff\x00', b'\x08\x03\xff\xfe\x80'],                       # type 65535 with empty value; non-UTF-8 bytes
+    'n4': [b'\x08\x00', b'\xff\x00\x00\x00\x01\x00\x00\x00\x00\x01Z'],           # empty generic component; type 2^32
+}
+
+
 def node_name(n):
-    return '/' + n
+    return [bytes(c) for c in NODE_NAMES[n]]
+
+
+_BY_BYTES = {}
+
+
+def node_of(name_or_bytes):
+    """spec node id of a real node name (FormalName or its TLV bytes)"""
+    if not _BY_BYTES:
+        for n in NODE_NAMES:
+            _BY_BYTES[bytes(enc.Name.to_bytes(node_name(n)))] = n
+    b = bytes(name_or_bytes) if isinstance(name_or_bytes, (bytes, bytearray, memoryview)) \
+        else bytes(enc.Name.to_bytes(name_or_bytes))
+    return _BY_BYTES.get(b, '?' + b.hex())
 
 
 def encode_sv_component(entries):
@@ -46,8 +73,10 @@ def encode_sv_component(entries):
     w.val.entries = []
     for nid, seq in entries:
         e = StateVecEntry()
-        if nid != NOID:
-            e.node_id = enc.Name.from_str(node_name(nid))
+        if nid == ROOTID:
+            e.node_id = []
+        elif nid != NOID:
+            e.node_id = node_name(nid)
         if seq != NOSEQ:
             e.seq_no = seq
         w.val.entries.append(e)
@@ -108,7 +137,7 @@ def decode_emitted(wire):
     sv = StateVecWrapper.parse(comp[0]).val
     out = {}
     for e in (sv.entries if sv is not None else []):
-        out[enc.Name.to_str(e.node_id).lstrip('/')] = e.seq_no
+        out[node_of(e.node_id)] = e.seq_no
     return out
 
 
@@ -164,7 +193,7 @@ class Scenario:
     def local(self):
         d = {n: 0 for n in self.nodes}
         for k, v in self.inst.local_sv.items():
-            n = enc.Name.to_str(enc.Name.from_bytes(k)).lstrip('/')
+            n = node_of(k)
             d[n] = v
         return d
 
